@@ -679,9 +679,11 @@ EXC_PARENT = {
     'DaemonError': 'Exception', 'WarmingUpError': 'Exception', 'ServiceRefusedError': 'Exception',
     'Base58Error': 'Exception', 'BadPeerError': 'Exception',
     # aiohttp / asyncio classes caught by Daemon._send
-    'asyncio.TimeoutError': 'Exception', 'aiohttp.ServerDisconnectedError': 'Exception',
-    'aiohttp.ClientConnectionError': 'Exception', 'aiohttp.ClientPayloadError': 'Exception',
-    'aiohttp.ClientResponseError': 'Exception', 'ConnectionResetError': 'ConnectionError',
+    'asyncio.TimeoutError': 'Exception',
+    'aiohttp.ClientError': 'Exception', 'aiohttp.ClientConnectionError': 'aiohttp.ClientError',
+    'aiohttp.ServerDisconnectedError': 'aiohttp.ClientConnectionError',
+    'aiohttp.ClientPayloadError': 'aiohttp.ClientError', 'aiohttp.ClientResponseError': 'aiohttp.ClientError',
+    'ConnectionResetError': 'ConnectionError',
 }
 
 
